@@ -6,5 +6,5 @@ import (
 )
 
 func main() {
-	runner.Main(codec.C07())
+	runner.Main(codec.C07(), codec.C08())
 }
